@@ -239,6 +239,7 @@ func freeVarIsClock(fv *ssa.FreeVar) bool {
 }
 
 func runC08(p *core.Program, r *core.Report) {
+	noSingledOutValue(rc{p, r}, []string{"cache/cache.go"}, nil)
 	fns := p.FuncsInFiles("cache/cache.go")
 	if len(fns) < 15 {
 		r.Fatal("vacuous: %d functions found in cache/cache.go, floor is 15", len(fns))
